@@ -49,6 +49,9 @@ func NewCache[V any](locus []byte, max, minPerBucket int) *Cache[V] {
 	if max < 0 {
 		panic("max < 0")
 	}
+	if minPerBucket < 0 {
+		panic("minPerBucket < 0")
+	}
 	if minPerBucket*8*len(locus) > max {
 		panic(fmt.Sprintf("max must be >= 8 * len(locus) * minPerBucket, max=%d minPerBucket=%d", max, minPerBucket))
 	}
